@@ -7,4 +7,4 @@ Extraction "model_difftree.ml"
   Tree.lookup Tree.sget Tree.userordered Tree.dup_inst Tree.sorted_sid
   Tree.canonb Tree.uniq_idsb Tree.schema_okb Tree.forest_eqb
   DiffTree.diff DiffTree.apply DiffTree.redup DiffTree.supportedb DiffTree.strip_dflt DiffTree.wfb
-  DiffRev.reverse DiffMerge.merge.
+  DiffRev.reverse DiffMerge.merge DiffMerge.schema_nouo.
